@@ -388,9 +388,14 @@ impl Install {
         self.dir.join("game/sqpack").join(repo_name(exp))
     }
     pub fn add_repo(&self, exp: u8) {
+        self.add_repo_with(exp, true)
+    }
+    /// `version_file` = false: the expansion's folder without its exN.ver (an installation in need of repair, but its
+    /// archives are there)
+    pub fn add_repo_with(&self, exp: u8, version_file: bool) {
         let d = self.repo_dir(exp);
         std::fs::create_dir_all(&d).unwrap();
-        if exp > 0 {
+        if exp > 0 && version_file {
             std::fs::write(d.join(format!("ex{}.ver", exp)), "2012.01.01.0000.0000").unwrap();
         }
     }
